@@ -41,7 +41,24 @@ Ltac jspec_eval :=
          push8 Spec816.push16 pushw pull8 Spec816.pull16 pullw app P_of
          Spec816.step_state Spec816.step_mem].
 
+(* [get f st] for an explicit state term [st], computed along the structure of [st] *)
+Ltac getv f st :=
+  lazymatch st with
+  | set ?g ?v ?s' =>
+      let b := eval vm_compute in (N.eqb f g) in
+      lazymatch b with true => v | false => getv f s' end
+  | log _ ?s' => getv f s'
+  | upd _ _ ?s' => getv f s'
+  | _ => constr:(get f st)
+  end.
+Ltac jfast :=
+  repeat match goal with
+         | |- context [get ?f ?st] =>
+             lazymatch st with set _ _ _ => idtac | log _ _ => idtac | upd _ _ _ => idtac end;
+             let r := getv f st in change (get f st) with r
+         end.
 Ltac jnorm :=
+  try jfast;
   repeat first [ rewrite get_set_this | rewrite get_set_other by reflexivity | rewrite get_log | rewrite get_upd
                | rewrite mem_set_f | rewrite mem_log_f ].
 Ltac jmem Hm1 :=
@@ -54,7 +71,12 @@ Ltac junfold :=
   unfold add8, sub8, conv8, add16, sub16, conv16, w16, w8, w24, wtrunc, ba in *.
 Lemma shr16 : forall x, w_shr x 16 = x / 65536.
 Proof. intros x. unfold w_shr. rewrite Z.shiftr_div_pow2 by lia. reflexivity. Qed.
-Ltac jarith := rewrite ?shr8, ?shr16; junfold; rewrite ?Z.add_0_r in *; first [ reflexivity | (Z.div_mod_to_equations; lia) ].
+Ltac jland :=
+  repeat match goal with
+         | |- context [w_and ?x 255] =>
+             rewrite (land255 x) by first [ lia | (unfold add16, sub16, conv16; apply Z.mod_pos_bound; lia) ]
+         end.
+Ltac jarith := rewrite ?shr8, ?shr16; jland; junfold; rewrite ?Z.add_0_r in *; first [ reflexivity | (Z.div_mod_to_equations; lia) ].
 
 (* ranges of the read atoms occurring in the goal *)
 Ltac read_ranges :=
